@@ -34,18 +34,23 @@ Theorem c15_auto_greater :
   s_last s' = id /\ s_entries s' = s_entries s ++ [(id, f)].
 Proof. exact add_auto_inv. Qed.
 
-(** ... and it fails to produce one exactly when the clock is not ahead of last_id and
-    the sequence number is u64::MAX (the implementation panics there: see
-    [c15_auto_overflow_refuted]). *)
-Theorem c15_auto_fails_only_at_overflow :
-  forall now s f, st_add_auto now s f = None <-> (now <= s_ams s /\ u64_max < s_aseq s + 1).
+(** ... and it is refused exactly when the clock is not ahead of last_id and both the
+    sequence number and the millisecond are at u64::MAX (after the repair fb507d0 an
+    exhausted sequence number moves on to the next millisecond); for u64 IDs that is
+    exactly when no greater ID exists. *)
+Theorem c15_auto_refused_iff :
+  forall now s f, st_add_auto now s f = None <->
+  (now <= s_ams s /\ u64_max < s_aseq s + 1 /\ u64_max < s_ams s + 1).
 Proof. exact add_auto_none. Qed.
+Theorem c15_auto_refused_only_when_exhausted :
+  forall now s f, SInv s -> in_u64 (s_last s) -> st_add_auto now s f = None ->
+  s_last s = (u64_max, u64_max) /\ forall id, in_u64 id -> sid_le id (s_last s).
+Proof. exact add_auto_refused_exhausted. Qed.
 
 (** the ID reported by the implementation is accepted by the model exactly when some
     clock reading produces it *)
 Theorem c15_auto_oracle_sound :
-  forall s oid n, auto_clock s oid = Some n ->
-  forall id ms sq, gen_next n s = Some (id, ms, sq) -> id = oid.
+  forall s oid n, auto_clock s oid = Some n -> exists ms sq, gen_next n s = Some (oid, ms, sq).
 Proof. exact auto_clock_sound. Qed.
 Theorem c15_auto_oracle_complete :
   forall s now id ms sq, gen_next now s = Some (id, ms, sq) ->
@@ -89,20 +94,13 @@ Proof. exact stream_writes_db_inv. Qed.
 Theorem c15_empty_db_invariant : DbInv empty_db.
 Proof. exact DbInv_empty. Qed.
 
-(** XRANGE / XREVRANGE (StreamData::range with its two binary searches, as written)
-    return exactly the present entries with start <= ID <= end, in ID order (reversed
-    for XREVRANGE), cut to COUNT - for ALL bounds outside the class [known_range_defect]
-    (end below every entry while start does not exclude the first entry). *)
+(** XRANGE / XREVRANGE (StreamData::range with its two binary searches, after the repair
+    dc07967) return exactly the present entries with start <= ID <= end, in ID order
+    (reversed for XREVRANGE), cut to COUNT - for ALL bounds. *)
 Theorem c15_range_spec :
-  forall es st en count reverse, sorted es -> known_range_defect es st en = false ->
+  forall es st en count reverse, sorted es ->
   st_range es st en count reverse = range_spec es st en count reverse.
 Proof. exact range_correct. Qed.
-
-(** inside the class the first entry is returned although nothing is in range *)
-Theorem c15_range_defect_shape :
-  forall e es st en, sorted (e :: es) -> known_range_defect (e :: es) st en = true ->
-  st_range (e :: es) st en None false = [e] /\ range_spec (e :: es) st en None false = [].
-Proof. exact range_defect_shape. Qed.
 
 (** XREAD (StreamData::range_after): the present entries with a greater ID, cut to COUNT *)
 Theorem c15_read_spec :
@@ -142,36 +140,28 @@ Proof. exact added_entry_kept. Qed.
 (** ---- refutations (known findings) and witnesses, kernel-checked ---- *)
 Local Open Scope string_scope.
 
-(** F-15a, class xrange-end-below-first: `XRANGE s 0-1 0-2` on a stream holding 5-0 *)
-Lemma c15_range_refuted :
-  exists es st en, sorted es /\ st_range es st en None false <> range_spec es st en None false.
-Proof.
-  exists [((5, 0), [])], (0, 1), (0, 2). split.
-  - constructor; constructor.
-  - vm_compute. discriminate.
-Qed.
+(** formerly F-15a (class xrange-end-below-first, fixed by dc07967): the witness now answers
+    empty ranges *)
 Example c15_range_witness :
   fst (run_cmds 0 empty_db [cmd ["XADD"; "s"; "5-0"; "a"; "1"]; cmd ["XRANGE"; "s"; "0-1"; "0-2"];
-                            cmd ["XREVRANGE"; "s"; "0-2"; "0-1"]; cmd ["XRANGE"; "s"; "6-0"; "7-0"]])
-  = [bulk "5-0"; FArray [FArray [bulk "5-0"; FArray [bulk "a"; bulk "1"]]];
-     FArray [FArray [bulk "5-0"; FArray [bulk "a"; bulk "1"]]]; FArray []].
+                            cmd ["XREVRANGE"; "s"; "0-2"; "0-1"]; cmd ["XRANGE"; "s"; "6-0"; "7-0"];
+                            cmd ["XRANGE"; "s"; "-"; "+"]])
+  = [bulk "5-0"; FArray []; FArray []; FArray [];
+     FArray [FArray [bulk "5-0"; FArray [bulk "a"; bulk "1"]]]].
 Proof. vm_compute. reflexivity. Qed.
 
-(** F-06i, class xadd-seq-overflow: at last_id = u64::MAX-u64::MAX no greater ID exists;
-    the property wants a refusal, the implementation panics (model outcome PANIC) *)
-Lemma c15_auto_overflow_refuted :
-  exists s, SInv s /\ forall now f, now <= u64_max -> st_add_auto now s f = None.
-Proof.
-  exists {| s_entries := [((u64_max, u64_max), [])]; s_last := (u64_max, u64_max);
-            s_ams := u64_max; s_aseq := u64_max; s_len := 1; s_groups := [] |}.
-  split.
-  - split; cbn; [constructor; constructor|constructor; [right; reflexivity|constructor]|reflexivity|reflexivity].
-  - intros now f Hn. apply add_auto_none. cbn. unfold u64_max in *. lia.
-Qed.
-Example c15_auto_overflow_witness :
+(** formerly F-06i (class xadd-seq-overflow, fixed by fb507d0): an exhausted sequence
+    number rolls over to the next millisecond; at u64::MAX-u64::MAX XADD * is refused
+    with an error and without effect *)
+Example c15_auto_rollover_witness :
+  let s := {| s_entries := [((5, u64_max), [])]; s_last := (5, u64_max); s_ams := 5; s_aseq := u64_max;
+              s_len := 1; s_groups := [] |} in
+  option_map fst (st_add_auto 3 s []) = Some (6, 0) /\ option_map fst (st_add_auto 9 s []) = Some (9, 0).
+Proof. vm_compute. auto. Qed.
+Example c15_auto_exhausted_witness :
   fst (run_cmds 0 empty_db [cmd ["XADD"; "s"; "18446744073709551615-18446744073709551615"; "a"; "1"];
-                            cmd ["XADD"; "s"; "*"; "a"; "1"]])
-  = [bulk "18446744073709551615-18446744073709551615"; r_panic].
+                            cmd ["XADD"; "s"; "*"; "a"; "1"]; cmd ["XLEN"; "s"]])
+  = [bulk "18446744073709551615-18446744073709551615"; r_err; FInt 1].
 Proof. vm_compute. reflexivity. Qed.
 
 (** F-15b, class stream-id-text: ID text is parsed with wrapping arithmetic and empty
@@ -194,8 +184,3 @@ Example c15_history_example :
   map fst (s_entries (fst (run_ops empty_stream ops))) = [(9, 1); (9, 2)] /\
   Forall sop_ok ops.
 Proof. vm_compute. repeat split; repeat constructor; discriminate. Qed.
-Example c15_range_hypothesis_satisfiable :
-  known_range_defect [((5, 0), []); ((7, 0), [])] (0, 1) (6, 0) = false /\
-  known_range_defect [((5, 0), []); ((7, 0), [])] (6, 0) (0, 2) = false /\
-  known_range_defect [] (0, 0) (0, 0) = false.
-Proof. vm_compute. auto. Qed.
